@@ -88,6 +88,8 @@ where
     async fn tick(&mut self) -> Result<TickResult> {
         match self.receiver.recv().await {
             Some(msg) => {
+                #[cfg(pearl_verif)]
+                let _verif_guard = crate::verif::MsgGuard;
                 self.process_msg(msg).await?;
                 Ok(TickResult::Continue)
             },
@@ -100,6 +102,8 @@ where
         let deadline = deadline + DEFERRED_PROCESS_DEADLINE_EPS;
         match timeout_at(deadline, self.receiver.recv()).await {
             Ok(Some(msg)) => {
+                #[cfg(pearl_verif)]
+                let _verif_guard = crate::verif::MsgGuard;
                 self.process_msg(msg).await?;
                 Ok(TickResult::Continue)
             },
